@@ -147,21 +147,41 @@ package graphalg
 //@   assert @loop3:exit [fixpoint] forall j in 0..len(rpo) :: fixAt(g, root, idom, poNum, rpo[j])
 //@   assigns nothing
 
+// Membership in a dominance frontier, relative to the idom array: y is a
+// reachable join (two or more incoming edges) with a reachable predecessor p
+// such that x lies on the idom-chain from p strictly before idom[y].
+//@ spec between(idom []int, p int, x int, stop int) bool = p != stop && (p == x || (0 <= p && p < len(idom) && between(idom, idom[p], x, stop)))
+//@ spec reach(idom []int, root int, x int) bool = x == root || idom[x] != -1
+//@ spec has(s []int, y int) bool = exists j in 0..len(s) :: s[j] == y
+//@ spec inDF(g graph.BiGraph, root int, idom []int, x int, y int) bool =
+//@     reach(idom, root, y) && len(g.In(y)) >= 2 && (exists k in 0..len(g.In(y)) :: reach(idom, root, g.In(y)[k]) && between(idom, g.In(y)[k], x, idom[y]))
+//@ spec dfShape(df [][]int, idom []int, N int) bool =
+//@     len(df) == N && fresh(df) && (forall x in 0..N :: isnil(df[x]) || (fresh(df[x]) && region(df[x]) != region(idom))) &&
+//@     (forall x in 0..N, z in 0..N :: x != z && !isnil(df[x]) ==> region(df[x]) != region(df[z]))
+//@ spec dfSound(g graph.BiGraph, root int, idom []int, df [][]int) bool =
+//@     forall x in 0..len(df), j in 0..len(df[x]) :: inDF(g, root, idom, x, df[x][j])
+//@ spec dfDone(g graph.BiGraph, root int, idom []int, df [][]int, b int) bool =
+//@     forall y in 0..b, x in 0..len(df) :: inDF(g, root, idom, x, y) ==> has(df[x], y)
+
 //@ func DomFrontier
 //@   model int
 //@   requires biReq(g) && 0 <= root && root < g.NumNodes() && (isnil(idom) || isIDom(g, root, idom))
 //@   ensures [len]     len(result) == g.NumNodes()
 //@   ensures [non-nil] forall x in 0..len(result) :: !isnil(result[x])
 //@   ensures [fresh]   fresh(result)
+//@   ensures [sound-given]    !isnil(idom) ==> dfSound(g, root, idom, result)
+//@   ensures [complete-given] !isnil(idom) ==> dfDone(g, root, idom, result, len(result))
+//@   check @ret1 [sound]    dfSound(g, root, idom, df)
+//@   check @ret1 [complete] dfDone(g, root, idom, df, len(df))
 //@   loop 1 (b) preserves idom[*]
-//@   loop 1 (b) invariant len(df) == g.NumNodes() && fresh(df) && (forall x in 0..len(df) :: isnil(df[x]) || (fresh(df[x]) && region(df[x]) != region(idom)))
+//@   loop 1 (b) invariant dfShape(df, idom, g.NumNodes()) && dfSound(g, root, idom, df) && dfDone(g, root, idom, df, b)
 //@   loop 2 (pred) preserves idom[*]
-//@   loop 2 (pred) invariant len(df) == g.NumNodes() && fresh(df) && (forall x in 0..len(df) :: isnil(df[x]) || (fresh(df[x]) && region(df[x]) != region(idom)))
+//@   loop 2 (pred) invariant dfShape(df, idom, g.NumNodes()) && dfSound(g, root, idom, df) && dfDone(g, root, idom, df, b) && (forall kk in 0.._k, x in 0..len(df) :: reach(idom, root, preds[kk]) && between(idom, preds[kk], x, bdom) ==> has(df[x], b))
 //@   loop 3 preserves idom[*]
-//@   loop 3 invariant len(df) == g.NumNodes() && fresh(df) && (forall x in 0..len(df) :: isnil(df[x]) || (fresh(df[x]) && region(df[x]) != region(idom))) && anc(idom, runner, bdom) && (runner == bdom || (0 <= runner && runner < len(idom)))
-//@   loop 4 (rdf) invariant true
-//@   loop 5 (i) modifies nothing
-//@   loop 5 (i) invariant len(df) == g.NumNodes() && fresh(df) && (forall x in 0..i :: !isnil(df[x]))
+//@   loop 3 invariant dfShape(df, idom, g.NumNodes()) && dfSound(g, root, idom, df) && dfDone(g, root, idom, df, b) && (forall kk in 0.._k2, x in 0..len(df) :: reach(idom, root, preds[kk]) && between(idom, preds[kk], x, bdom) ==> has(df[x], b)) && anc(idom, runner, bdom) && (runner == bdom || (0 <= runner && runner < len(idom))) && (forall x in 0..len(df) :: between(idom, runner, x, bdom) ==> between(idom, pred, x, bdom)) && (forall x in 0..len(df) :: between(idom, pred, x, bdom) ==> between(idom, runner, x, bdom) || has(df[x], b))
+//@   loop 4 (rdf) invariant forall j in 0.._k :: df[runner][j] != b
+//@   loop 5 (i) preserves idom[*]
+//@   loop 5 (i) invariant len(df) == g.NumNodes() && fresh(df) && (forall x in 0..i :: !isnil(df[x])) && dfSound(g, root, idom, df) && dfDone(g, root, idom, df, len(df))
 //@   assigns nothing
 
 // ---------------------------------------------------------------------
